@@ -1043,9 +1043,20 @@ impl Decompressor {
 
     /// Write a sample to a FASTA file
     pub fn write_sample_fasta(&mut self, sample_name: &str, output_path: &Path) -> Result<()> {
-        let contigs = self.get_sample(sample_name)?;
-
         let mut writer = GenomeWriter::<File>::create(output_path)?;
+        self.write_sample_to(sample_name, &mut writer)
+    }
+
+    /// Append a sample's FASTA records to an already open writer
+    ///
+    /// Unlike [`write_sample_fasta`](Self::write_sample_fasta) this does not create or
+    /// truncate anything, so several samples can be written one after the other.
+    pub fn write_sample_to<W: std::io::Write>(
+        &mut self,
+        sample_name: &str,
+        writer: &mut GenomeWriter<W>,
+    ) -> Result<()> {
+        let contigs = self.get_sample(sample_name)?;
 
         for (contig_name, contig_data) in contigs {
             // Convert numeric encoding back to ASCII using CNV_NUM lookup table
